@@ -40,7 +40,7 @@ def leaf_prog(leaf, q):
         "array": [["from", U], ["select", [k(["array", [["raw", 1], ["raw", 2]]])]]],
         "interval": [["from", U], ["select", [k(["arith", "+", ux, ["interval", {"days": 1, "hours": 2}]])]]],
         "json": [["from", U], ["select", [k(ux)]], ["where", ["jsonop", "contains", ["f", "u", "j"], ["$dict", [["a", 1]]]]]],
-        "jsondict": [["from", U], ["select", [k(["raw", {"$dict": [["a", "x\\y\"z'w"], ["b", [1, "q\\"]]]}])]]],
+        "jsondict": [["from", U], ["select", [["raw", {"$dict": [["a", "x\\y\"z'w"], ["b", [1, "q\\"]]]}], k(ux)]]],
         "jsondict_set": [["update", U], ["set", "j", ["raw", {"$dict": [["a", "x\\y\"z'w"]]}]], ["where", ["cmp", "=", uy, ["raw", "a\\b"]]]],
         "groupalias": [["from", U], ["select", [k(["arith", "+", ux, ["raw", 1]])]], ["groupby", [k(["arith", "+", ux, ["raw", 1]])]]],
         "limit": [["from", U], ["select", [k(ux)]], ["orderby", [ux], "asc"], ["limit", 3], ["offset", 1]],
@@ -258,8 +258,10 @@ def run_case(case):
         try:
             o = prog.build(p, dialect=d)
         except Exception as e:
-            res.extra["disabled"] = res.extra.get("disabled", 0) + 1
-            res.extra.setdefault("disabled_kinds", set()).add(type(e).__name__)
+            # every program of the menu is valid for every dialect class (none is rejected on the reference tree)
+            res.nontrivial = 1
+            res.violate("C08|build-raises|%s|%s" % (d, type(e).__name__), "a valid program of the menu was rejected while it was built",
+                        dialect=d, leaf=leaf, path=path, inner=inner_cls, error=str(e)[:200])
             continue
         res.nontrivial = 1
         # render history: the same statement object rendered for another dialect first
